@@ -1,4 +1,5 @@
 import KaVerif.Gen.Registry
+-- STREAM disp handleDisp
 namespace KaVerif.Driver
 open KaVerif Dispatch Gen.Registry
 
